@@ -8,6 +8,7 @@ import Driver.IntMode
 import Driver.NumMode
 import Driver.NamesMode
 import Driver.PipeMode
+import Driver.ProofMode
 /-! `osmt-model <mode> <file>`: line-protocol driver around the executable models and kernels. -/
 def main (args : List String) : IO UInt32 := do
   match args with
@@ -49,6 +50,10 @@ def main (args : List String) : IO UInt32 := do
     for l in txt.splitOn "\n" do
       if l != "" then
         for o in Driver.pipeLine l do IO.println o
+    return 0
+  | ["proof", path] =>
+    let txt ← IO.FS.readFile path
+    for l in Driver.runProof (txt.splitOn "\n") do IO.println l
     return 0
   | ["mk", path] =>
     let txt ← IO.FS.readFile path
